@@ -8,7 +8,7 @@ rnd, root = sys.argv[1], sys.argv[2]
 props = [json.loads(l) for l in open('/verif/properties.jsonl')]
 desc = json.load(open('/verif/seeded/descriptions.json'))
 os.makedirs(root + '/out', exist_ok=True)
-ordinal = {'2': 'second', '3': 'third', '4': 'fourth', '5': 'fifth', '6': 'sixth', '7': 'seventh'}.get(rnd, rnd + 'th')
+ordinal = {'2': 'second', '3': 'third', '4': 'fourth', '5': 'fifth', '6': 'sixth', '7': 'seventh', '8': 'eighth'}.get(rnd, rnd + 'th')
 for p in props:
     c = p['id'].lower()
     wt = f'{root}/{c}'
@@ -17,7 +17,7 @@ for p in props:
     tried = '\n'.join('- ' + v[0] for k, v in sorted(desc.items()) if k.startswith(p['id'] + '-'))
     open(f'{root}/{c}.TASK.md', 'w').write(f'''# Task: seed a realistic defect into a Go library ({ordinal} round)
 
-You work ONLY inside the git worktree `{wt}` (a checkout of the Go library ThreeDotsLabs/watermill: message router with ack/nack semantics, middlewares, CQRS buses, in-process GoChannel Pub/Sub) and write your results to `{root}/out/{c}/`. Do not read or write anything under /verif, /repo, /tmp/seed, /tmp/seed2, /tmp/seed3, /tmp/seed4, /tmp/seed5, /tmp/seed6 or other {root}/c* directories.
+You work ONLY inside the git worktree `{wt}` (a checkout of the Go library ThreeDotsLabs/watermill: message router with ack/nack semantics, middlewares, CQRS buses, in-process GoChannel Pub/Sub) and write your results to `{root}/out/{c}/`. Do not read or write anything under /verif, /repo, /tmp/seed, /tmp/seed2, /tmp/seed3, /tmp/seed4, /tmp/seed5, /tmp/seed6, /tmp/seed7 or other {root}/c* directories.
 Every shell call needs: `export GOFLAGS=-mod=mod GOPROXY=off GOSUMDB=off GOTOOLCHAIN=local` (no network; default `go` is 1.23). Lines like `verifhook.At("...", a, b)` in the sources are inert instrumentation (empty function): leave them in place and do not rely on them.
 NEVER use `git stash` (it is shared between worktrees and other people work in sibling worktrees): save a change with `git diff > file.diff`, remove it with `git apply -R file.diff` or `git checkout -- <file>`, re-apply it with `git apply file.diff`.
 
